@@ -30,6 +30,7 @@ pub fn gen_count_case(rng: &mut Rng, tier: &str, prop: &str) -> Case {
         min_len: 0,
         dup_pct: 15,
             tab_desc_pct: 0,
+            dup_id_pct: 0,
     };
     let records = g.gen(rng);
     let total: usize = records.iter().map(|r| r.seq.len()).sum();
@@ -62,6 +63,7 @@ pub fn gen_count_case(rng: &mut Rng, tier: &str, prop: &str) -> Case {
             "limit" => limit,
             "acgt" => rng.chance(1, 3),
             "delete" => !rng.chance(1, 4),
+            "order" => if rng.chance(1, 2) { 0 } else { rng.range(1, 1 << 40) },
             // seed of junk left in the output directory before the run (0 = clean)
             "dirty" => if rng.chance(1, 6) { rng.range(1, 1 << 40) } else { 0 },
         },
